@@ -38,6 +38,9 @@ type FilterScenario struct {
 	Reader  world.ReaderPlan `json:"reader"`
 	Inserts []Insertion      `json:"inserts,omitempty"` // null / adaptation-only packets added to the stream
 	K       int              `json:"k,omitempty"`       // stream carried in 188+K byte packets (size given explicitly)
+	// Pauses: packet indices before which the reader reports io.EOF once and then carries on (a
+	// growing source); the caller polls again after every ErrNoMorePackets. Parser scenarios only.
+	Pauses []int `json:"pauses,omitempty"`
 }
 
 var errParserSentinel = errors.New("sim: packets parser failure")
@@ -57,10 +60,10 @@ func (filters) Runs(tier string) int64 {
 
 func (filters) Meta() core.EngineMeta {
 	return core.EngineMeta{
-		Rule:        "Reference streams are demuxed with simulator-owned callbacks. Skipper predicates: by PID set, continuity counter value, payload_unit_start, adaptation-field presence / random-access / PCR flags, seeded per-packet decision lists, stateful every-n-th, skip-all, skip-none; the reference is the same stream with the selected packets deleted by the PacketChannel and demuxed without skipper (NextPacket and NextData). Parsers: observer (skip=false, records groups), replacer (skip=true, returns 0..3 tagged data), partial replacer (per PID), failing (error on a seeded subset of groups). Every callback invocation is logged with a deep copy of its arguments. distinct = (skipper kind, parser kind, stream shape class, outcome counts class); non-trivial = the callback decided differently for at least two packets/groups.",
+		Rule:        "Reference streams are demuxed with simulator-owned callbacks. Skipper predicates: by PID set, continuity counter value, payload_unit_start, adaptation-field presence / random-access / PCR flags, seeded per-packet decision lists, stateful every-n-th, skip-all, skip-none; the reference is the same stream with the selected packets deleted by the PacketChannel and demuxed without skipper (NextPacket and NextData). Parsers: observer (skip=false, records groups), replacer (skip=true, returns 0..3 tagged data), partial replacer (per PID), failing (error on a seeded subset of groups). Every callback invocation is logged with a deep copy of its arguments. distinct = (skipper kind, parser kind, stream shape class, outcome counts class); non-trivial = the callback decided differently for at least two packets/groups. One parser scenario in five is also run on a reader that reports io.EOF once at one to three packet boundaries before the end and then carries on (a growing source), the caller polling again after each ErrNoMorePackets: no packet may reach the PacketsParser more often than the stream carries it.",
 		Real:        []string{"astits.Demuxer and everything below it"},
 		Stub:        []string{"refts reference multiplexer", "PacketChannel (deletion of the selected packets)", "logging PacketSkipper / PacketsParser callbacks", "SimReader (fault-free)"},
-		FaultKinds:  []string{"skip-pid", "skip-cc", "skip-pusi", "skip-af", "skip-seq", "skip-nth", "skip-all", "skip-none", "parser-observer", "parser-replacer", "parser-partial", "parser-failing"},
+		FaultKinds:  []string{"skip-pid", "skip-cc", "skip-pusi", "skip-af", "skip-seq", "skip-nth", "skip-all", "skip-none", "parser-observer", "parser-replacer", "parser-partial", "parser-failing", "reader-eof-pause"},
 		Assumptions: []string{"a failing parser never fails on PID 0 groups (PMT PIDs depend on the PAT having been delivered)"},
 		Levels:      map[string]string{"C19": "exploration"},
 	}
@@ -144,6 +147,17 @@ func (filters) Generate(r *core.PRNG, tier string, idx int64) any {
 			}
 		}
 		sc.Parser = p
+		if r.Chance(1, 5) {
+			n := 0
+			for _, c := range packetCounts(sc.Model) {
+				n += c
+			}
+			n += len(sc.Inserts)
+			for i, np := 0, r.Range(1, 3); i < np && n > 1; i++ {
+				sc.Pauses = append(sc.Pauses, r.Range(1, n-1))
+			}
+			sort.Ints(sc.Pauses)
+		}
 	}
 	return sc
 }
@@ -668,6 +682,61 @@ func (filters) Execute(scAny any, keepLog bool) *core.Outcome {
 			}
 		}
 	}
+	if len(sc.Pauses) > 0 && sc.Parser != nil {
+		// A source that reports end of file and then grows: whatever the Demuxer makes of the
+		// pause (flush what is pending and carry on, or stay at ErrNoMorePackets), no packet may
+		// reach the PacketsParser more often than the stream carries it ("each unit exactly once").
+		out.Evals++
+		pcfg := cfg
+		last := -1
+		for _, pi := range sc.Pauses {
+			if pi > last && pi > 0 && pi < npk {
+				pcfg.Reader.EOFPauses = append(pcfg.Reader.EOFPauses, pi*(188+k))
+				last = pi
+			}
+		}
+		inStream := map[string]int{}
+		for _, r := range basePk {
+			if r.P != nil {
+				inStream[core.Dump(r.P)]++
+			}
+		}
+		handed := map[string]int{}
+		var order []string
+		counter := astits.DemuxerOptPacketsParser(func(ps []*astits.Packet) ([]*astits.DemuxerData, bool, error) {
+			for _, pk := range ps {
+				key := core.Dump(pk)
+				if handed[key] == 0 {
+					order = append(order, key)
+				}
+				handed[key]++
+			}
+			return nil, false, nil
+		})
+		rd, sr := world.NewReader(data, pcfg.Reader, out.Log)
+		dmx := newDemuxer(rd, pcfg, counter)
+		ends := 0
+		for i := 0; i < npk*4+16+4*len(sc.Pauses) && ends < len(pcfg.Reader.EOFPauses)+2; i++ {
+			_, err := dmx.NextData()
+			if errors.Is(err, astits.ErrNoMorePackets) {
+				ends++
+				out.Log.Add("caller", "poll-again", ends)
+			}
+		}
+		if sr.PauseN > 0 {
+			out.Fire("reader-eof-pause")
+			if sr.Pos() > pcfg.Reader.EOFPauses[0] {
+				out.Probe("resumed-after-eof-pause")
+			}
+		}
+		for _, key := range order {
+			if handed[key] > inStream[key] {
+				out.Violate("C19", "group-repeated", "after-eof-pause", "a packet the stream carries %d time(s) was handed to the PacketsParser %d times (reader reported io.EOF %d times before the end and carried on)", inStream[key], handed[key], sr.PauseN)
+				break
+			}
+		}
+		out.FP(fmt.Sprintf("Ppause/%s/%d/%v", shape, min(sr.PauseN, 3), sr.Pos() >= len(data)))
+	}
 	out.Steps = out.Evals
 	return out
 }
@@ -772,6 +841,13 @@ func (filters) Shrink(scAny any) []any {
 		c := *sc
 		c.K = 0
 		out = append(out, &c)
+	}
+	for i := range sc.Pauses {
+		if len(sc.Pauses) > 1 {
+			c := *sc
+			c.Pauses = append(append([]int{}, sc.Pauses[:i]...), sc.Pauses[i+1:]...)
+			out = append(out, &c)
+		}
 	}
 	if sc.Skipper != nil && sc.Parser != nil {
 		c := *sc
